@@ -313,6 +313,14 @@ def cover_premises(run, name, cases):
     return [x.strip() == "true" for x in out]
 
 
+def premise_eval(run, name, module, fn, cases):
+    """Evaluates the boolean premise `fn` (defined in coq/<module>.v) on each (coq_prog, coq_request). Returns a list of booleans."""
+    header = COQ_HEADER.replace("Build Show Validate.", f"Build Show Validate {module}.")
+    exprs = [f"{fn} {p} {r}" for p, r in cases]
+    out = run.coq_eval(name, header, exprs, shard=max(1, min(60, (len(exprs) + 15) // 16)))
+    return [x.strip() == "true" for x in out]
+
+
 # ------------------------------------------------------------------------------------------------ generator
 
 F32 = np.float32
